@@ -20,6 +20,21 @@ fn main() {
             let mut st = codec::State {
                 dicts: std::collections::HashMap::new(),
             };
+            // watchdog: a case that runs longer than VERIF_CASE_TIMEOUT seconds (default 30) is a hang; the
+            // process exits with status 97 and the orchestrator attributes it to the case it died on
+            let limit_ms: u64 = std::env::var("VERIF_CASE_TIMEOUT").ok().and_then(|s| s.parse::<u64>().ok()).unwrap_or(30) * 1000;
+            let started = std::sync::Arc::new(std::sync::atomic::AtomicU64::new(0));
+            let t0 = std::time::Instant::now();
+            {
+                let started = std::sync::Arc::clone(&started);
+                std::thread::spawn(move || loop {
+                    std::thread::sleep(std::time::Duration::from_millis(250));
+                    let s = started.load(std::sync::atomic::Ordering::SeqCst);
+                    if s != 0 && (t0.elapsed().as_millis() as u64).saturating_sub(s) > limit_ms {
+                        std::process::exit(97);
+                    }
+                });
+            }
             let stdin = std::io::stdin();
             let stdout = std::io::stdout();
             let mut out = std::io::BufWriter::new(stdout.lock());
@@ -31,7 +46,10 @@ fn main() {
                 let r = if line.is_empty() || line.starts_with('#') {
                     String::new()
                 } else {
-                    codec::handle(&mut st, &line)
+                    started.store(t0.elapsed().as_millis() as u64 + 1, std::sync::atomic::Ordering::SeqCst);
+                    let r = codec::handle(&mut st, &line);
+                    started.store(0, std::sync::atomic::Ordering::SeqCst);
+                    r
                 };
                 let _ = writeln!(out, "{}", r);
                 let _ = out.flush();
